@@ -17,7 +17,7 @@ STUBS = ["transport -> recording object (both directions)", "reactor / txaio.cal
          "os.urandom (handshake nonce) -> fixed octets", "loggers -> empty bodies"]
 ASSUMPTIONS = [
     "Twisted adapter for the bulk of the units; the asyncio adapter (receive queue processed from an event-loop callback) is driven by the aio/ units on a hand-stepped loop: 2 messages x 2-cut segmentations, queue piled up or drained between segments",
-    "compression off (see C12); sendFrame's deliberately-invalid fuzzing parameters (mask=, payload_len=, rsv=) are not used",
+    "compression off except for the z/ units (compressed / do-not-compress messages interleaved over the codec model of C12); sendFrame's deliberately-invalid fuzzing parameters (mask=, payload_len=, rsv=) are not used",
     "payload content symbolic up to the stated octet bound, longer payloads are concrete fill around symbolic octets; lengths, API mix, fragment sizes, chop sizes, cut positions enumerated within the bounds (fragment size additionally as a free integer)",
     "oracle 1 = independent RFC 6455 frame grammar over the written octets; oracle 2 = peer application's onMessage trace",
 ]
@@ -25,7 +25,7 @@ BOUNDS = {
     "quick": "2 messages per run, all ordered pairs of 6 send APIs, payload 0..3 free octets; fragmentSize/autoFragmentSize a free integer 1..n+1; chop sizes 1..3; every single cut of the wire stream for short streams; boundary lengths {125,126,127,128,129} client->server and {65535,65536} server->client with 2 free octets + fill; hand-over after the HTTP header at every cut position of the last 6 header octets",
     "thorough": "3 messages per run over all API triples, payload 0..6 free octets, every 2-cut split for streams <= 24 octets, boundary lengths both directions, chop sizes 1..5",
 }
-EXPECT_COVERS = ["aio", "api:message", "api:message-frag", "api:autofrag", "api:frame-frag", "api:streaming", "api:prepared", "sync-queue", "chopped",
+EXPECT_COVERS = ["deflate-mix", "aio", "api:message", "api:message-frag", "api:autofrag", "api:frame-frag", "api:streaming", "api:prepared", "sync-queue", "chopped",
                  "handover:S", "handover:C", "len:126", "len:65536"]
 BUDGET = {"quick": dict(wall_s=300, max_paths=20000, diff_samples=3), "thorough": dict(wall_s=2400, max_paths=300000)}
 
@@ -175,6 +175,15 @@ def aio_roundtrip(sx, sender_server, apis, n, queued):
     return [len(frames), len(got)]
 
 
+def compressed_mix(sx, setting, api):
+    """with a compression extension negotiated, compressed and uncompressed (doNotCompress) messages interleave: each arrives intact, once,
+    in order (the negotiation itself and the codec contract are C12's subject; the harness is shared)"""
+    from . import c12
+    r = c12.pair(sx, setting, api, 3)
+    sx.cover("deflate-mix")
+    return r
+
+
 def boundary(sx, sender_server, api, L):
     """payload lengths at the 7/16/64-bit length-encoding boundaries: 2 free octets + literal fill"""
     clock, trace, s, c, rnd = wslib.open_pair(sx)
@@ -282,6 +291,9 @@ def units(tier):
             for queued in (False, True):
                 U.append(("aio/%s/%s/%s" % ("S" if sender_server else "C", "+".join(apis), "queued" if queued else "stepped"), "aio_roundtrip",
                           dict(sender_server=sender_server, apis=apis, n=2, queued=queued), dict(weight=6, framework="asyncio")))
+    for setting in (0, 2):
+        for api in ("mixed", "donotcompress", "message"):
+            U.append(("z/%d/%s" % (setting, api), "compressed_mix", dict(setting=setting, api=api), dict(weight=4)))
     # length-encoding boundaries
     for L in ([125, 126, 127, 128, 129] if q else [124, 125, 126, 127, 128, 129, 130, 255, 256]):
         for api in (("message", "prepared", "streaming") if q else APIS):
